@@ -177,12 +177,51 @@ def run(prog: Program, res: Result, tier: str) -> None:
     # ---- R6 scaling and dm --------------------------------------------------------------------------------------------------
     _scaling_and_dm(prog, res)
 
+    # ---- R7 the header's own derived quantities --------------------------------------------------------------------
+    _header_algebra(prog, res, "R7")
+
+    res.floor("R7", 9)
     res.floor("R1", 12)
     res.floor("R2", 15)
     res.floor("R3", 40)
     res.floor("R4", 6)
     res.floor("R5", 3)
     res.floor("R6", 5)
+
+
+def _header_algebra(prog: Program, res: Result, rule: str) -> None:
+    """Band edges, channel labels and durations are the stated functions of (fch1, foff, nchans, tsamp, nsamples)."""
+    from ..props import property_expr
+    hdr = prog.cls(HEADER, "Header")
+    env = PolyEnv(atom_hook=transparent_casts)
+
+    def inl(e):
+        from ..props import inline_props
+        return env.poly(inline_props(prog, hdr, e))
+    want = {
+        "ftop": "self.fch1 - 0.5 * self.foff",
+        "fbottom": "self.fch1 - 0.5 * self.foff + self.foff * self.nchans",
+        "fcenter": "self.fch1 - 0.5 * self.foff + 0.5 * self.foff * self.nchans",
+        "chan_freqs": "np.arange(self.nchans, dtype=np.float32) * self.foff + self.fch1",
+        "bandwidth": "abs(self.foff) * self.nchans",
+        "tobs": "self.tsamp * self.nsamples",
+        "fmax": "self.chan_freqs.max()",
+        "fmin": "self.chan_freqs.min()",
+    }
+    for name, w in want.items():
+        pe = property_expr(prog, hdr, name)
+        m = hdr.methods.get(name)
+        if name in ("fmax", "fmin"):
+            ok = pe is not None and norm(pe) == w
+        else:
+            ok = pe is not None and inl(pe) == inl(ast.parse(w, mode="eval").body)
+        (res.ok if ok else res.bad)(rule, m, m.node if m else hdr.node, f"Header.{name} = {w}" if ok else
+                                    f"Header.{name} is `{norm(pe) if pe is not None else '?'}`, expected `{w}`: channel labels / band edges / durations "
+                                    f"derived from it no longer describe the data", construct=f"Header.{name}", key=f"hdr:{name}")
+    dh = hdr.methods.get("dedispersed_header")
+    ok = dh is not None and "return self.new_header({'dm': dm, 'nchans': 1, 'data_type': 'time series', 'nbits': 32})" in norm(dh.node)
+    (res.ok if ok else res.bad)(rule, dh, dh.node if dh else hdr.node, "dedispersed_header(dm): dm recorded, one channel, 32-bit time series" if ok else
+                                "dedispersed_header no longer records (dm, nchans=1, time series, 32 bit)", construct="dedispersed_header", key="hdr:dedispersed")
 
 
 def _mentions_freq(e: ast.AST) -> bool:
@@ -535,6 +574,12 @@ MUTANTS = [
      "old": "TimeDelta(nsamps * self.tsamp, format=\"sec\")", "new": "TimeDelta(nsamps, format=\"sec\")"},
 ]
 MUTANTS += [
+    {"id": "c08-chan-freqs-half", "file": "sigpyproc/header.py", "expect": "C08.R7",
+     "old": "        return np.arange(self.nchans, dtype=np.float32) * self.foff + self.fch1", "new": "        return (np.arange(self.nchans, dtype=np.float32) + 0.5) * self.foff + self.fch1"},
+    {"id": "c08-fcenter-no-half", "file": "sigpyproc/header.py", "expect": "C08.R7",
+     "old": "        return self.ftop + 0.5 * self.foff * self.nchans", "new": "        return self.fch1 + 0.5 * self.foff * self.nchans"},
+    {"id": "c08-dedispersed-header-dm", "file": "sigpyproc/header.py", "expect": "C08.R7",
+     "old": "            {\"dm\": dm, \"nchans\": 1, \"data_type\": \"time series\", \"nbits\": 32},", "new": "            {\"nchans\": 1, \"data_type\": \"time series\", \"nbits\": 32},"},
     {"id": "c08-revert-F10-foff", "file": B, "expect": "C08.R",
      "old": "        new_foff = self.header.foff * subfactor\n", "new": "        new_foff = self.header.foff * self.header.nchans // nsub\n"},
     {"id": "c08-revert-F10-fch1", "file": B, "expect": "C08.R4",
